@@ -365,6 +365,7 @@ theorem period_and_quorum_by_type (s : State) (p : Proposal) (n : Nums) (pid : N
   · intro hp hexp h
     have hpid : p.id = pid := findProp_id hp
     unfold finishTally at h
+    simp only [refundRun_eq, burnRun_eq] at h
     simp only [show settleShapeOk = true from rfl, Bool.not_true, Bool.false_and, Bool.false_eq_true, if_false] at h
     simp only [show settleShapeOk = true from rfl, hexp, if_true, Bool.not_false, Bool.and_self, Bool.not_true,
       Bool.false_eq_true, if_false] at h
@@ -426,6 +427,7 @@ theorem gov_endblock_inactive_total (ops : List Op) (pid : Nat) (p : Proposal) :
   intro s hp
   have hi : Inv s := run_inv rfl rfl rfl ops init init_inv
   unfold dropInactive
+  simp only [refundRun_eq, burnRun_eq]
   simp only [hp, show inactiveSettleShapeOk = true from rfl, if_true]
   split
   · exact refundDeposits_total (by simpa using hi.bal)
@@ -439,6 +441,7 @@ theorem gov_endblock_finish_total (ops : List Op) (pid : Nat) (p : Proposal) (pa
   intro s _
   have hi : Inv s := run_inv rfl rfl rfl ops init init_inv
   unfold finishTally
+  simp only [refundRun_eq, burnRun_eq]
   simp only [show settleShapeOk = true from rfl, Bool.not_true, Bool.false_and, Bool.false_eq_true, if_false]
   simp only [show settleShapeOk = true from rfl, if_true]
   by_cases hk : (p.expedited && !passes) = true
@@ -496,6 +499,7 @@ theorem gov_endblock_active_total (ops : List Op) (pid : Nat) (p : Proposal) (st
       ∃ s', finishTally passes burn (n.yes / DEC, n.abstain / DEC, n.no / DEC, n.veto / DEC) p pid s0 = .ok s' := by
     intro s0 hb
     unfold finishTally
+    simp only [refundRun_eq, burnRun_eq]
     simp only [show settleShapeOk = true from rfl, Bool.not_true, Bool.false_and, Bool.false_eq_true, if_false]
     simp only [show settleShapeOk = true from rfl, if_true]
     by_cases hk : (p.expedited && !passes) = true
@@ -592,6 +596,7 @@ theorem tally_consumes_votes (stk : Staking) (pid : Nat) (s s' : State) (h : tal
         simp only [show tallyRemovesVotes = true from rfl, if_true] at h
         have hv : s'.votes = votesNot s.votes pid := by
           unfold finishTally at h
+          simp only [refundRun_eq, burnRun_eq] at h
           simp only [show settleShapeOk = true from rfl, Bool.not_true, Bool.false_and, Bool.false_eq_true, if_false] at h
           simp only [show settleShapeOk = true from rfl, if_true] at h
           have settle : ∀ s1 : State,
@@ -1246,8 +1251,8 @@ theorem activate_statement_order :
 /-- **`RefundAndDeleteDeposits` and `DeleteAndBurnDeposits` of that SDK version**: the callback of the refund walk sends the
 deposit to its depositor and removes the record; the burn walk adds the amount to `coinsToBurn` and removes the record, one
 `BurnCoins` of the sum follows the walk.  Interpreted (`refundRun`, `burnRun`), they are the `refundDeposits` /
-`burnDeposits` of the model in every state — so `each_deposit_settled_once_refund` / `_burn` speak about the SDK code as
-written now -/
+`burnDeposits` of the model in every state, and the model's end-blocker (`dropInactive`, `finishTally`) RUNS the interpreted
+ones — so `each_deposit_settled_once_refund` / `_burn` speak about the SDK code as written now -/
 theorem sdk_settlement_statements :
     sdkRefundCallback = ["depositor", "send", "remove", "return:return false, err"] ∧
     sdkBurnSteps = ["sum0", "walk", "burnSum"] ∧ sdkBurnCallback = ["accumulate", "remove"] ∧
